@@ -259,12 +259,22 @@ P["C15"] = dict(
         ("Props.C15.C15_wellformed", "whatever the example builder emits is the rendering of a valid JSON tree which the scanner reads back"),
         ("Props.C15.C15_build_is_render", "builder bytes = rendering of the builder's tree"),
         ("Props.C15.C15_self_valid", "reference-free schemas accepted by Check: the emitted bytes are the whole EXAMPLE document in compact layout and Validate accepts it (any literal rule semantics)"),
-        ("Props.C15.C15_self_valid_refs", "with user-type references over any (also recursive) type table: if the builder completes without a recursion cut-off, the emitted bytes are the compact text of the built document and Validate accepts it")),
-    runs=[{"cmd": ["example-diff"]}, {"cmd": ["c15-example"]}],
-    partial="well-formedness is a theorem for all schemas; self-validation is a theorem for reference-free schemas and for schemas with type references whenever no recursion cut-off happens; with or-rules in containers, key shortcuts and cut-offs it holds outside the known-finding classes (explored, not proved)",
+        ("Props.C15.C15_self_valid_refs", "with user-type references over any (also recursive) type table: if the builder completes without a recursion cut-off, the emitted bytes are the compact text of the built document and Validate accepts it"),
+        ("Props.C15.C15_plain_text_roundtrip", "TEXT level: for any JSON value written with any white-space layout, schema scanner model -> loader model -> example builder returns exactly its compact text (source tokens byte for byte)"),
+        ("Props.C15.C15_plain_result_is_json", "that result is read by the JSON scanner model as the events of the value: it is accepted"),
+        ("Props.C15.C15_text_builder_is_model", "the byte-level builder on the loader's node table = the abstract builder EX.build (every node table)"),
+        ("Props.C15.C15_build_extends", "EX.build is the restriction of the extended builder EXK.build (key shortcuts, additionalProperties)"),
+        ("Props.C15.C15_self_valid_ext_partial", "self-validation with or-shortcuts, nullable, additionalProperties, any type table, key shortcuts on literal string types, cut-offs at optional properties / array suffixes; the known-finding classes excluded by a decidable class"),
+        ("Props.C15.C15_self_valid_optional_cut", "optional recursion: if every omitted child is the value of an optional property the output validates"),
+        ("Props.C15.C15_self_valid_allOf", "the same for objects with allOf (expanded first)"),
+        ("Props.C15.C15_self_valid_full_false", "the unrestricted statement is false: K-C15-reqcut witness reproduced by the model"),
+        ("Props.C15.C15_self_valid_full_false_arraycut", "K-C15-arraycut witness"),
+        ("Props.C15.C15_self_valid_full_false_keyclash", "K-C15-keyclash witness")),
+    runs=[{"cmd": ["example-diff"]}, {"cmd": ["c15-example"]}, {"cmd": ["c15-text"]}, {"cmd": ["c15-exk"]}],
+    partial="well-formedness is a theorem for all schemas; the plain-JSON sentence is a theorem at TEXT level (scanner + loader + builder models) for white-space layouts (comments / annotations in the layout: tied, not proved); self-validation is a theorem for the decidable class that excludes exactly the known-finding classes (cut-off at a required property or before an emitted array element, key type through an alias, key example clashing with a literal key), incl. key shortcuts, additionalProperties, allOf and optional recursion; or rule-sets inside containers (K-C15-orcontainer) and enum-rule examples are explored, not proved",
     level_text="Proof (partial): the example builder (with the separator/escaping fix) emits the rendering of a valid JSON tree and the scanner reads back exactly that tree (theorem, all schemas/type tables). Tie: model bytes vs real Example() on generated schemas with mutually referring types. Search: json.Valid(Example()), Validate(Example()) == nil, plain-JSON schemas give their compact example.",
     level_note="Trusted: Lean kernel; key shortcuts/enum rules in examples validated only; K-C15-* known findings by structural class.",
-    technique="Lean 4 theorem (builder output = rendering of a valid tree) + differential + exploration")
+    technique="Lean 4 theorems (builder output = rendering of a valid tree; text-level round trip; self-validation on a decidable class; refutation witnesses for the known findings) + differential correspondence + exploration")
 
 P["C16"] = dict(
     lean_targets=["JSight.Props.C16"],
